@@ -87,7 +87,7 @@ def _shrink_candidates(case):
         r = genck.RECV[case["kind"]]
         c["kind"] = "function"
         if r:
-            c["paramNames"] = c["paramNames"][1:]
+            genck.set_sig(c, c["sig"][1:])
             c["args"] = c["args"][1:]
             ok = True
             for lv in c["levels"]:
@@ -150,14 +150,9 @@ def expected_ret(case):
 
 
 def py_bound(case):
-    """What CPython binds for the call (simple signatures: receiver + positional-or-keyword parameters)."""
-    pn = case["paramNames"]
-    bound = dict((n, ["o", i]) for n, i in case["kwdefaults"])
-    for n, a in zip(pn, case["args"]):
-        bound[n] = ["o", a]
-    for k, v in case["kwargs"]:
-        bound[k] = ["o", v]
-    return bound
+    """What CPython binds for the call (`inspect.Signature.bind`)."""
+    b = implck.py_bind(case)
+    return b if b is not None else {}
 
 
 def expected_value(case, name, bound, result_id, old):
